@@ -268,8 +268,29 @@ def run(tier, seed):
                                   "oracle": "FAIL the period went on after %s was assigned a value falsifying the activation condition (at %s)" % (c[2][2], late[:3]),
                                   "shape": "chained-condition", "open_at_end": False})
         rep.sample({"config": text, "events": len(evs), "markers": {m["name"]: ",".join(markers(im["stream"], m["name"])) for m in cfg["members"]}}, cap=3)
+    # ---- probe: the round in which the condition is found false (the closing round of a period) ------------------
+    # `m0 audits only while mood == 'blue'` / `m0 expects always: mood == 'blue'`: whenever the condition holds the
+    # predicate holds, so no observation made IN a period disappoints.  The real loop (and the model, which mirrors it)
+    # still evaluates the predicate in the closing round, where the mood is already `clear`.
+    pcfg = {"signals": [("s", "scalar")], "actors": ["a"], "members": [
+        {"name": "m0", "cond": ("bin", "eq", g.var("mood"), ("str", "blue")), "assigns": [],
+         "expect": ("always", ("bin", "eq", g.var("mood"), ("str", "blue"))), "watches": []}]}
+    pevs = [("mood", F(1), "blue"), ("mood", F(3), "clear")]
+    pr_ = impl.call("audition", Args={"Parse": {"Text": g.config_text(pcfg)}, "Events": g.events_json(pevs), "EpochOffset": float(TEND)})
+    closing = []
+    if not (pr_.get("Panicked") or pr_.get("harnessCrash") or pr_.get("Err")):
+        pmk = markers(g.parse_impl(pr_)["stream"], "m0")
+        rep.count("closing-round probe")
+        if "2" in pmk:
+            closing.append({"config": g.config_text(pcfg), "events": g.events_json(pevs), "auditor": "m0", "markers": ",".join(pmk),
+                            "oracle": "FAIL an observation made in the round where the activation condition turned false was judged (disappointment) although the predicate holds whenever the condition does"})
     rep.obligation("K-C02: real audit loop vs model on the start/report/stop stream (%d histories)" % len(cases), "K", not kdis, json.dumps(kdis[:2])[:1800])
     rep.obligation("O-C02: periods bracketed, explainable from a fresh start, closed at the end (real stream)", "O", not ofail, json.dumps(ofail[:2])[:1800])
+    closing_known = bool(closing) and rep.match_known({"kind": "closing-round-judged"}) is not None
+    rep.obligation("O-C02c: nothing observed in a period's closing round is judged%s" % (" — the probe of the known finding excepted (it fails as recorded)" if closing_known else ""),
+                   "O", (not closing) or closing_known, json.dumps(closing[:1])[:900])
+    if closing:
+        rep.violation("auditor m0: %s" % closing[0]["oracle"], closing[0], tags={"kind": "closing-round-judged"})
     if ofail:
         seen = set()
         for f in ofail:
